@@ -505,7 +505,9 @@ prop(
     level="other",
     design_ref="DESIGN.md section 3, C15",
     groups=[(["./plugin/action/join", "./pipeline"], r"^(\(\*Plugin\)\.(Do|flush|isNextOK)|\(\*processor\)\.(processEvent|Propagate|doActions))$"),
-            (["./plugin/input/k8s"], r"^(\(\*MultilineAction\)\.(Do|resetLogBuf)|endsWithNewLine)$")],
+            (["./plugin/input/k8s"], r"^(\(\*MultilineAction\)\.(Do|resetLogBuf)|endsWithNewLine)$"),
+            (["./plugin/action/join_template", "./plugin/action/join_template/template", "./plugin/action/join_template/ascii"],
+             r"^(\(\*Plugin\)\.(Start|firstCheck|nextCheck)|InitTemplate|goPanic(Start|Continue)Check|sharp(Start|Continue)Check|goDataRace(Start|Finish)Check|contains(OnlySpaces|OnlyDigits|GoroutineID|LineNumber|CreatedBy|Call|PanicAddress|At|Arrow|EndOf|Exception)|firstNonSpaceIndex|endsWithIdentifier|equalCaseInsensitive|Is(Space|Digit|HexDigit|Letter|LetterOrUnderscore|LetterOrUnderscoreOrDigit|LowerCaseLetter|UpperCaseLetter)|ToLower)$")],
     canaries=[("./plugin/input/k8s", "replay/C15/zz_k8s_backslash_n_test.go", "TestVerifK8sBackslashNIsNotEndOfLine"),
               ("./plugin/input/k8s", "replay/C15/zz_k8s_cutoff_gap_test.go", "TestVerifK8sCutOffGap"),
               ("./plugin/input/k8s", "replay/C15/zz_k8s_skip_survives_timeout_test.go", "TestVerifK8sSkipSurvivesTimeout")],
